@@ -140,6 +140,12 @@ func blob(tag byte, gas, sink util.Uint160) []byte {
 	a.label("body")
 	// args (top first): R, plan, idx ; locals: 0 frame, 1 j, 2 chk
 	a.initslot(3, 3)
+	// frames at odd positions of the chain have already returned from an internal call when they check witnesses and
+	// call on (frames of internal calls share the script context - and its link to the calling contract - with this one)
+	a.op(opcode.LDARG2, opcode.PUSH1, opcode.AND)
+	a.jmp(opcode.JMPIFNOTL, "nopre")
+	a.jmp(opcode.CALLL, "nop")
+	a.label("nopre")
 	a.op(opcode.LDARG1, opcode.LDARG2, opcode.PICKITEM, opcode.STLOC0)
 	emitChecks(a, vars{r: ld(opcode.LDARG0), idx: ld(opcode.LDARG2), frame: ld(opcode.LDLOC0), phase: ld(opcode.PUSH0), locJ: 1, locChk: 2}, gas, sink, "i_")
 	// link
@@ -192,6 +198,8 @@ func blob(tag byte, gas, sink util.Uint160) []byte {
 	a.label("sub")
 	a.initslot(2, 3)
 	emitChecks(a, vars{r: ld(opcode.LDARG0), idx: ld(opcode.LDARG1), frame: ld(opcode.LDARG2), phase: ld(opcode.PUSH1), locJ: 0, locChk: 1}, gas, sink, "s_")
+	a.op(opcode.RET)
+	a.label("nop")
 	a.op(opcode.RET)
 	return a.done()
 }
